@@ -2,8 +2,23 @@
 
 package libvore
 
+import (
+	"strings"
+
+	"github.com/jmeaster30/vore/libvore/ast"
+)
+
 // Verification hooks (build tag `verif`).
 
 func (v *Vore) VerifAst() string { return v.ast.VerifDump() }
 
 func (v *Vore) VerifBytecode() string { return v.bytecode.VerifDump() }
+
+// VerifParse runs only the front end (lexer + parser) and dumps the syntax tree.
+func VerifParse(src string) (string, error) {
+	a, err := ast.ParseReader(strings.NewReader(src))
+	if err != nil {
+		return "", err
+	}
+	return a.VerifDump(), nil
+}
